@@ -36,6 +36,11 @@ def judge(name, cls, sk):
 def run(ctx):
     ex = cdgen.Extractor(REPO)
     regs = ex.registrations()
+    if ctx.replay and json.load(open(ctx.replay)).get('kind') == 'fake-clang':
+        import cdharness
+        cdharness.check_part(ctx, model_side=False)
+        print('replayed ->', 'fails' if ctx.violations else 'holds')
+        return 1 if ctx.violations else 0
     if ctx.replay:
         o = json.load(open(ctx.replay))
         sk = ex.skeleton(o['class'])
@@ -82,10 +87,15 @@ def run(ctx):
                    {'kind': 'clang_delta-conv', 'function': 'TransformationManager::doTransformation', 'input': '--query-instances=<any> --output=<file>'})
     ctx.sample({'name': regs[0][0], 'class': regs[0][1], 'clauses': ''.join(ex.skeleton(regs[0][1]))})
     ctx.sample({'name': 'simplify-struct', 'clauses': ''.join(ex.skeleton('SimplifyStruct') or ['?'])})
-    conclude(ctx, [], None)
+    # the driver code of the tree (CLI, manager, the driver-side functions of Transformation, one real unit) compiled against
+    # stand-in Clang headers and run: the command-line protocol is observed, and compared with the protocol model
+    import cdharness
+    diffs = []
+    cdharness.check_part(ctx, model_side=True, diffs=diffs)
+    conclude(ctx, diffs, None)
     ctx.assumptions += ['a statement is "rewriting" iff it (or a function / visitor class it reaches by name inside clang_delta/) mentions TheRewriter or RewriteHelper',
-                        'a counter check counts only if its if-chain, evaluated over small values of (TransformationCounter, ValidInstanceNum, ToCounter) with every other condition taken as false, ends in TransMaxInstanceError/TransToCounterTooBigError whenever the counter exceeds the instances', 'the C++ of the transformations is not executed or modelled beyond the order of these clauses; no correspondence run is possible (no Clang development files)']
+                        'a counter check counts only if its if-chain, evaluated over small values of (TransformationCounter, ValidInstanceNum, ToCounter) with every other condition taken as false, ends in TransMaxInstanceError/TransToCounterTooBigError whenever the counter exceeds the instances', 'the C++ of the 73 transformations is not executed or modelled beyond the order of these clauses (no Clang development files); what *is* built and run is the driver code of the tree — ClangDelta.cpp, TransformationManager.cpp, the driver-side functions of Transformation.cpp and the LocalToGlobal unit — against stand-in Clang headers (tools/cdharness.py): exit statuses, messages, query-before-output and the counter checks of that unit are observed and compared with the protocol model (CD.run / CD.exitOf)']
     return ctx.finish(obligations=OBLIGATIONS,
                       rule='all registered transformations (every static RegisterTransformation<…> in clang_delta/*.cpp); one skeleton each; '
                            'distinct = distinct clause-order shapes; the theorem all_wf decides the whole regenerated table',
-                      extra={'registrations': len(regs), 'shapes': shapes, 'exhaustive': True, 'tie': 'regeneration only'})
+                      extra={'registrations': len(regs), 'shapes': shapes, 'exhaustive': True, 'tie': 'regeneration for the 73 units; the driver code is compiled against stand-in Clang headers and run (tools/cdharness.py)'})
